@@ -81,9 +81,13 @@ static int server_written(unsigned char *out, const unsigned char *payload, int 
  * leaves behind in the client's buffers.  At every answer a child first delivers an UNMATCHED answer (foreign DNS id)
  * carrying a long payload of a chosen filler, then the honest answer; the run continues honestly and must end in
  * exactly the state of the run without the extra datagram. */
-#define NPRE 10
-static const struct { int ch; int len; const char *d; } PRE[NPRE] = { { '9', 64, "64 x '9'" }, { '9', 700, "700 x '9'" }, { 'A', 64, "64 x 'A'" }, { 0xff, 64, "64 x 0xff" }, { 0xff, 700, "700 x 0xff" },
-	{ '-', 64, "64 x '-'" }, { 0, 64, "64 zero bytes" }, { 'a', 300, "300 x 'a'" }, { '0', 40, "40 x '0'" }, { 0x80, 200, "200 x 0x80" } };
+#define NPRE 13
+static const struct { int ch; int len; const char *d; int cut; } PRE[NPRE] = { { '9', 64, "64 x '9'" }, { '9', 700, "700 x '9'" }, { 'A', 64, "64 x 'A'" }, { 0xff, 64, "64 x 0xff" }, { 0xff, 700, "700 x 0xff" },
+	{ '-', 64, "64 x '-'" }, { 0, 64, "64 zero bytes" }, { 'a', 300, "300 x 'a'" }, { '0', 40, "40 x '0'" }, { 0x80, 200, "200 x 0x80" },
+	/* the same kind of datagram cut short (a relay truncating it): the decoder gives up half way, after it has stored part of
+	 * the content - several host names of an MX/SRV answer, say (seeded C06-i / C12-h: a static table wiped by bookkeeping
+	 * that an early return skips) */
+	{ '9', 700, "700 x '9', cut at 3/4 of the datagram", 1 }, { 0xff, 700, "700 x 0xff, cut at 3/4 of the datagram", 1 }, { 'a', 900, "900 x 'a', cut 5 bytes before its end", 2 } };
 /* fragment trains: from one answer on, N consecutive answers are replaced by hostile data fragments of one downstream
  * packet (same sequence number, fragment 0,1,2.., never flagged last), each carrying the largest body the record type
  * can hold.  One train = one deviation (like the burst outages of C02). */
@@ -471,6 +475,8 @@ static void on_callback(int slot, int b)
 				int k = i - nmenu;
 				memset(pl, PRE[k].ch, PRE[k].len);
 				int n = server_written(out, pl, PRE[k].len, de);
+				if (n > 40 && PRE[k].cut == 1) n = n * 3 / 4;
+				if (n > 40 && PRE[k].cut == 2) n -= 5;
 				prefill_kind = k;
 				snprintf(cur_desc, sizeof cur_desc, "%s, before answer #%d (to query id %d) an unmatched answer (foreign DNS id) carrying %s is delivered", CELLS[cur_cell].name, answer_no, recent_ids[0], PRE[k].d);
 				xp_count(K_UNMATCHED_CHECKS, 1);
@@ -522,6 +528,8 @@ static void on_callback(int slot, int b)
 			int k = i - nmenu;
 			memset(pl, PRE[k].ch, PRE[k].len);
 			int n = server_written(out, pl, PRE[k].len, de);
+			if (n > 40 && PRE[k].cut == 1) n = n * 3 / 4;
+			if (n > 40 && PRE[k].cut == 2) n -= 5;
 			prefill_kind = k;
 			snprintf(cur_desc, sizeof cur_desc, "%s, before answer #%d (to query id %d) an unmatched answer (foreign DNS id) carrying %s is delivered", CELLS[cur_cell].name, answer_no, recent_ids[0], PRE[k].d);
 			printf("replay: %s\n", cur_desc);
